@@ -113,6 +113,12 @@ CMP = {"Lt", "Le", "Gt", "Ge", "Eq", "Ne"}
 
 
 def binop(op, a, b):
+    if a[0] == "dconst" and b[0] == "dconst" and op in ("Eq", "Ne", "Lt", "Le", "Gt", "Ge"):
+        # two known enum discriminants (derived PartialEq / PartialOrd on a value whose variant the path already fixed)
+        try:
+            return C(concrete_binop(op, a[1], b[1]))
+        except Exception:
+            pass
     if a[0] == "c" and b[0] == "c" and isinstance(a[1], (int, bool)) and isinstance(b[1], (int, bool)):
         try:
             return C(concrete_binop(op, a[1], b[1]))
@@ -734,6 +740,16 @@ class Engine:
             for c in st.cond:
                 if c[0] == "truth" and c[1] == d:
                     return [(st, otherwise if c[2] else fb)]
+            # `x == K1` is false on a path where `x == K2` (K2 != K1) holds: successive `if status == A {..} if status == B {..}`
+            # on the same value must not produce the path "is A and is B"
+            if d[0] == "op" and d[1] == "Eq":
+                for lhs, k in ((d[2], d[3]), (d[3], d[2])):
+                    if k[0] in ("c", "dconst"):
+                        for c in st.cond:
+                            if c[0] == "truth" and c[2] is True and c[1][0] == "op" and c[1][1] == "Eq":
+                                for l2, k2 in ((c[1][2], c[1][3]), (c[1][3], c[1][2])):
+                                    if l2 == lhs and k2[0] in ("c", "dconst") and k2 != k:
+                                        return [(st, fb)]
             s_t = st.fork()
             s_t.cond.append(("truth", d, True))
             s_f = st.fork()
